@@ -435,6 +435,24 @@ def check_match(r) -> list[Fail]:
             fails.append(Fail("match:invalid-embedding-returned", f"{where}: {sorted(got - ref)[0]}"))
         if tuple(chosen) not in got:
             fails.append(Fail("match:identity-embedding-missed", f"{where}: the atoms the pattern was cut from, {tuple(chosen)}, are not among {len(got)} mappings"))
+    # ---- the documented keyword callbacks, ONE at a time: the matcher that is not overridden stays the default one
+    if not fails:
+        try:
+            got_e = set(tuple(six[id(m[pa])] for pa in pat.atoms) for m in src.match(pat, edge_match=lambda e1, e2: True))
+            got_n = set(tuple(six[id(m[pa])] for pa in pat.atoms) for m in src.match(pat, node_match=lambda n1, n2: True)) if mode == "wildcard" else None
+        except Exception as e:
+            s = exc_sig(e)
+            if s is None:
+                raise
+            return [Fail(f"match-raises:one-callback:{s}", f"{where}: {e!r}"[:300])]
+        # any bond matches any bond, elements still count: exactly the element-respecting induced embeddings, whatever the bond types
+        if got_e != ref:
+            bad = sorted(got_e ^ ref)[0]
+            fails.append(Fail("match:edge_match-override-changes-the-element-rule", f"{where}: match(pattern, edge_match=any) returned {len(got_e)} mappings, {len(ref)} element-respecting embeddings exist; e.g. {bad}"))
+        if got_n is not None:
+            ref_any = embeddings(n, edges, els, len(chosen), pedges, [0] * len(chosen))
+            if got_n != ref_any:
+                fails.append(Fail("match:node_match-override-wrong", f"{where}: match(pattern, node_match=any) returned {len(got_n)} mappings, {len(ref_any)} embeddings of the bare graph exist"))
     tally(labels={f"mode={mode}": 1, "embeddings>=2": 1 if len(ref) >= 2 else 0})
     # ---- the same objects after an in-place edit: the answers must follow the CURRENT graph
     if not fails and r.get("edit") is not None and mode in ("wildcard", "absent"):
